@@ -124,12 +124,16 @@ type caseEnv struct {
 	outNilPtr bool   // Out is a pointer type and the handler returned nil
 	outZero   []byte // then: JSON of the zero value of the element type
 	outNil    bool   // Out is an interface and the handler returned untyped nil
+
+	askFirst bool   // the handler asks for the client's roots when invoked without input responses
+	asked    int    // such invocations
+	seenAsk  []byte // JSON of the In value it received then
 }
 
 func (e *caseEnv) begin(c *Call) {
 	e.mu.Lock()
 	e.cur = c
-	e.invoked = 0
+	e.invoked, e.asked, e.seenAsk = 0, 0, nil
 	e.seen, e.outJSON, e.outZero, e.outNilPtr, e.outNil = nil, nil, nil, false, false
 	e.mu.Unlock()
 }
@@ -150,6 +154,12 @@ func mk[In, Out any](name string, inSchema, outSchema any) goTool {
 				func(ctx context.Context, req *mcp.CallToolRequest, in In) (*mcp.CallToolResult, Out, error) {
 					env.mu.Lock()
 					defer env.mu.Unlock()
+					if env.askFirst && len(req.Params.InputResponses) == 0 {
+						env.asked++
+						env.seenAsk, _ = json.Marshal(in)
+						var zero Out
+						return &mcp.CallToolResult{InputRequests: mcp.InputRequestMap{"roots": &mcp.ListRootsParams{}}}, zero, nil
+					}
 					env.invoked++
 					env.seen, _ = json.Marshal(in)
 					var out Out
